@@ -4,7 +4,12 @@ Deciding obligations:
   * subset: `M.subset(idx)` vs a model built directly from `records[idx]` with the same options: the regenerated programs must
     be syntactically identical (`prog_eqb`, equality for ALL states by C09_identical_programs_agree) and `compute_max_density`
     (where the options enter) must agree; the index logic of `Parameter::subset` is C09_subset_lookup (model shared with C14);
-  * permutation, zero-mole padding, splitting: LABELLED TEST — value and the corresponding first derivatives of both regenerated
+  * permutation, zero-mole padding: the verified AC-canonicaliser (coq/theories/Canon.v, C09_canonical_programs_agree) is run on
+    the two regenerated programs over one shared environment (variables permuted / padded mole number flagged zero, constants
+    identified by value); where it returns true for an output, the two outputs are EQUAL FOR ALL STATES by theorem; the pairs in
+    EXPECT_CANON must be proved that way (a regression is a violation), the others (iterative association solver: LU with
+    pivoting is not AC-invariant) and splitting (needs distributivity) fall back to the
+  * LABELLED TEST — value and the corresponding first derivatives of both regenerated
     programs are enclosed by the verified multi-precision evaluator at sampled states and must agree to 1e-12 relative
     (disjoint enclosures prove a difference at that state), plus a plain-f64 oracle on more states.
 """
@@ -20,6 +25,16 @@ TOL_DEFAULT = 1e-12
 TOL = {}
 TOL_ITERATIVE = 1e-7   # cases whose programs contain the iterative cross-association solver (converged to 1e-10)
 F64_RTOL = 1e-5
+# pairs whose TOTAL residual Helmholtz energy must be proved equal for all states by the canonicaliser
+EXPECT_CANON = {"permute_pcsaft_alkanes_kij", "permute_pcsaft_acetone_co2", "pad_pcsaft_alkanes", "pad_pcsaft_propane_plus_acetone",
+                "gperm_pr2", "gpad1_pr2", "gpad0_pr2",
+                "gperm_pcsaft_propane_butane_kij", "gpad1_pcsaft_propane_butane_kij", "gpad0_pcsaft_propane_butane_kij",
+                "gpad1_pcsaft_acetone_butanone", "gpad0_pcsaft_acetone_butanone",
+                "gpad1_pcsaft_co2_chlorine", "gpad0_pcsaft_co2_chlorine",
+                "gperm_pcsaft_acetone_co2", "gpad1_pcsaft_acetone_co2", "gpad0_pcsaft_acetone_co2",
+                "gperm_pcsaft_csite_propane", "gpad1_pcsaft_csite_propane", "gpad0_pcsaft_csite_propane",
+                "gperm_pets2", "gpad1_pets2", "gpad0_pets2",
+                "gperm_epcsaft_water_nacl", "gpad2_epcsaft_water_nacl", "gpad0_epcsaft_water_nacl"}
 
 
 def by_prog(tags, key):
@@ -50,6 +65,21 @@ def run(ctx):
     worst = {}
     samples = []
     identical = 0
+    canon_total = 0
+    known_hits = []
+    canon_rows = {}
+    known = V.load_known("C09")
+
+    def known_for(name):
+        """an open finding covers a mismatch of pair `name` only if it lists the pair AND the canonicaliser has proved every
+        contribution other than the named one equal for all states (so the difference sits in that contribution)"""
+        row = canon_rows.get(name)
+        for e in known:
+            k = e.get("key", {})
+            if name in k.get("pairs", []) and row is not None and \
+                    set(row["not_decided_by_the_canonicaliser"]) <= {k.get("contribution"), "A_total"}:
+                return e
+        return None
     for p in impl["cases"]:
         name = p["name"]
         r = res[os.path.join(ctx.gen, name + ".v")]
@@ -79,6 +109,24 @@ def run(ctx):
             V.violation(ctx, "coqc failed for %s" % name, {"broken": "gen/C09/%s.v" % name, "coq_error": V.coq_error(r["out"])},
                         found_input=False)
             continue
+        canon_lost = False
+        if p.get("canon_outputs"):
+            flags = by_prog(tags, "CANON").get("P")
+            names = p["canon_outputs"]
+            ok = isinstance(flags, list) and len(flags) == len(names)
+            row = dict(zip(names, flags)) if ok else {}
+            canon_rows[name] = {"proved_equal_for_all_states": [n for n in names if row.get(n) is True],
+                                "not_decided_by_the_canonicaliser": [n for n in names if row.get(n) is not True],
+                                "state_dependent_constants": p.get("leaks")}
+            total = row.get("A_total") is True
+            if name in EXPECT_CANON:
+                obligations += 1
+                if total:
+                    discharged += 1
+            if total:
+                canon_total += 1
+            elif name in EXPECT_CANON:
+                canon_lost = True
         ea0, eb0 = by_prog(tags, "EA0").get("P"), by_prog(tags, "EB0").get("P")
         ea1, eb1 = by_prog(tags, "EA1").get("P"), by_prog(tags, "EB1").get("P")
         bad = []
@@ -103,14 +151,22 @@ def run(ctx):
                 worst[name] = max(worst.get(name, 0.0), rel)
                 if not abs(ma - mb) <= t:
                     bad.append({"quantity": q, "state": st, "a": list(a), "b": list(b), "relative_difference": rel, "tolerance": tol})
-        if bad:
+        if (bad or f64_fail) and known_for(name):
+            V.report_known(ctx, known_for(name))
+            known_hits.append(name)
+        elif bad:
             V.violation(ctx, "%s: the two implementations differ at a sampled state: %s (relative %.3g)"
                         % (name, bad[0]["quantity"], bad[0].get("relative_difference", float("nan"))),
                         {"broken": "verified enclosures of both regenerated programs (gen/C09/%s.v)" % name, "pair": name,
                          "mismatches": bad[:8], "f64_confirmation": f64_fail[:3]}, found_input=True)
         elif f64_fail:
-            V.violation(ctx, "%s: the two implementations differ in plain f64 at %s" % (name, f64_fail[0]["state"]),
+            V.violation(ctx, "%s: the two implementations differ in plain f64 at %s" % (name, f64_fail[0].get("state_a")),
                         {"broken": "oracle", "pair": name, "failing": f64_fail}, found_input=True)
+        elif canon_lost:
+            V.violation(ctx, "%s: the two regenerated programs are no longer equal modulo associativity/commutativity "
+                        "(canon_eqbs false for A_total); no differing state found among the sampled ones" % name,
+                        {"broken": "gen/C09/%s.v: pair_agree (C09_canonical_programs_agree) for A_total" % name,
+                         "canon": canon_rows.get(name)}, found_input=False)
         if len(samples) < 5:
             samples.append({"pair": name, "instructions": [p["ninstr_a"], p["ninstr_b"]], "syntactically_identical": same,
                             "kind": p["kind"], "states_TVN": p["states"][0] if p["states"] else None,
@@ -121,7 +177,9 @@ def run(ctx):
         "trusted_base": V.COMMON_TRUSTED + ["Interval bigint backend at precision %d" % impl["prec"],
                                              "the list of pairs and how each member is constructed (harness/src/bin/c09.rs)"],
         "programs": 2 * len(impl["cases"]), "cases": len(impl["cases"]), "pairs_proved_identical": identical,
-        "pairs_compared_by_enclosures_(labelled_test)": len(impl["cases"]) - identical,
+        "pairs_proved_equal_for_all_states_by_canonicaliser": canon_total,
+        "canonicaliser_per_output": canon_rows, "pairs_matching_a_known_finding": known_hits,
+        "pairs_compared_by_enclosures_only_(labelled_test)": len(impl["cases"]) - identical - canon_total,
         "disagreements_checked": n_cmp,
         "worst_relative_difference_per_pair": worst,
         "library_theorems": lib["obligations"], "library_files": lib["library_files"], "axioms_reported": lib["axioms"],
@@ -130,7 +188,11 @@ def run(ctx):
                 "first derivatives of both regenerated programs enclosed at 100 bits",
     }
     V.write_evidence(ctx, "proof", cov, [
-        "only the subset cases are decided by theorems for all states; permutation, padding and splitting are compared at "
-        "sampled states (verified enclosures: a machine-checked comparison, not a proof of equality everywhere)",
+        "decided by theorems for all states: the subset cases (identical programs) and the permutation / padding cases in which "
+        "the AC-canonicaliser identifies the outputs (see canonicaliser_per_output); the remaining pairs (iterative association "
+        "solver, splitting) are compared at sampled states (verified enclosures: a machine-checked comparison, not a proof of "
+        "equality everywhere)",
+        "the canonicaliser identifies constants by their value in the traced state; for a program with state-dependent constants "
+        "(state_dependent_constants > 0) the theorem covers the states with the same coincidences",
         "pure-component quantities inside mixture algorithms follow from the subset obligation and determinism of the solvers; not exercised here",
     ])
